@@ -12,7 +12,7 @@ from concurrent.futures import ProcessPoolExecutor
 IMPL = re.compile(r'^[sd][0-9]{10}\.c$')      # restated from the documentation, not read from the code
 NEAR = ['s0000000001.c', 'd0000000002.c', 'x0000000001.c', 'S0000000001.c', 's000000001.c', 's00000000001.c', 's000000000a.c', 's0000000001.h',
         's0000000001.cc', 's0000000001.c~', 'datasegments', 'out.h', 'other.c', 'ss000000001.c', 'd00000000010c', 's0000000001.C', 'd-000000001.c', 'd0000000009.c.bak']
-LONGDIR = 'L' * 200
+LONGDIR = 'L' * 250        # < NAME_MAX, but the directory PART of the output path is then longer than 255 bytes
 
 
 def snapshot(root):
@@ -225,12 +225,12 @@ def main(tier):
                 continue
             seen.add(key)
             chk.violation(key, {'kind': 'config', 'cwd': job[4], 'outpath': job[5], 'options': job[6], 'variant': job[7], 'problem': [kind, what], 'replay_module': 'c20.py'},
-                          'cwd=%s output=%s options=%s: %s %s' % (job[4], job[5].replace(LONGDIR, 'L*200'), ' '.join(job[6]), kind, what.replace(LONGDIR, 'L*200')))
+                          'cwd=%s output=%s options=%s: %s %s' % (job[4], job[5].replace(LONGDIR, 'L*250'), ' '.join(job[6]), kind, what.replace(LONGDIR, 'L*250')))
     chk.cov['distinct_nontrivial'] = nontrivial
-    chk.cov['output_shapes'] = [s[1].replace(LONGDIR, 'L*200') for s in OUTSHAPES]
+    chk.cov['output_shapes'] = [s[1].replace(LONGDIR, 'L*250') for s in OUTSHAPES]
     chk.cov['option_sets'] = len(optsets)
     chk.cov['near_miss_names'] = NEAR + ['d0000000003.c/ (directory)']
-    chk.cov['rule'] = ('every output-path shape (relative, ./, ../, nested, absolute, no extension, two extensions, 200-character directory, through a symlinked '
+    chk.cov['rule'] = ('every output-path shape (relative, ./, ../, nested, absolute, no extension, two extensions, 250-character directory, through a symlinked '
                        'directory, long basename, extension-less name below ./, ../ and a directory whose name contains a dot) x working directory x option sets (thorough: the full product {-f 0,1,2}x{-t 1,3}x{-d arrays,gnu-ld}x{-c}x{-r}x{-g}x{-p}x{-m} '
                        'x 3 layouts of pre-existing near-miss names in the output directory, its sub-directory, the working directory and an unrelated directory); '
                        'monitors: tree snapshot diff + strace of every mutating call; allowed: output, header, [sd][0-9]{10}.c, datasegments (gnu-ld only) in '
